@@ -33,6 +33,7 @@ func checkC02(w *World, r *Report) {
 	checkC02Errors(w, r)
 	checkC02ConflictScope(w, r)
 	checkC02PatternHostIntact(w, r)
+	checkC02ExactLookupNeedsLiteralWildcards(w, r)
 }
 
 // ---- C02.1 ---------------------------------------------------------------------------------------------------
@@ -810,4 +811,81 @@ func checkC02PatternHostIntact(w *World, r *Report) {
 		})
 	}
 	ru.Check("netutil.StripHostPort", w.Pos(sp.Pos()), "cuts \":port\" only when the port is numeric ("+FuncName(validator)+"), like netutil.SplitHostPort", why == "", orDefault(why, "validated"))
+}
+
+// ---- C02.10 ------------------------------------------------------------------------------------------------
+
+// checkC02ExactLookupNeedsLiteralWildcards: Router.Route / Txn.Route / Iter.Routes (and Has) find a registered pattern
+// by running the pattern text through the request matcher. A pattern's wildcard starts with '{' or '*'; the lookup can
+// only arrive at the wildcard child if the matcher's static child search takes those two bytes literally. As long as the
+// exact lookups are built on the matcher, that search must not exclude them (a repair of the priority corner case C01.11
+// that only touches the search makes registered routes invisible: with /a{x} and /a*{y}, Has("/a*{y}") turns false).
+func checkC02ExactLookupNeedsLiteralWildcards(w *World, r *Report) {
+	ru := r.Rule("C02.10", "exact lookups stay able to reach wildcard children: if Route/Has/Routes resolve SplitHostPath(pattern) through the request matcher, the matcher's search of the child keys for the next byte is not guarded against '{' or '*'", 1)
+	viaMatcher := ""
+	for _, spec := range [][2]string{{"Router", "Route"}, {"Txn", "Route"}, {"Iter", "Routes"}} {
+		fn := w.Method(spec[0], spec[1])
+		if fn == nil {
+			continue
+		}
+		for _, g := range withAnon(fn) {
+			eachInstr(g, func(in ssa.Instruction) {
+				c, ok := in.(*ssa.Call)
+				if !ok || c.Call.StaticCallee() == nil || c.Call.StaticCallee().Name() != "lookup" || len(c.Call.Args) < 5 {
+					return
+				}
+				if ex, ok := c.Call.Args[len(c.Call.Args)-3].(*ssa.Extract); ok {
+					if sc, ok := ex.Tuple.(*ssa.Call); ok && sc.Call.StaticCallee() != nil && sc.Call.StaticCallee().Name() == "SplitHostPath" {
+						viaMatcher = spec[0] + "." + spec[1]
+					}
+				}
+			})
+		}
+	}
+	if viaMatcher == "" {
+		ru.Pass("exact lookups", "-", "not built on the request matcher", "Route/Has/Routes do not hand SplitHostPath(pattern) to the matcher")
+		return
+	}
+	af := w.astFuncOf(modulePath, "lookupByPath")
+	guarded := ""
+	n := 0
+	visit := func(at ast.Node, reqByte string) {
+		b, _ := af.blockOf(at)
+		if b == nil {
+			return
+		}
+		n++
+		for _, f := range af.factsAt(b) {
+			for _, pr := range []struct {
+				op  token.Token
+				val bool
+			}{{token.NEQ, true}, {token.EQL, false}} {
+				if x, y, ok := isCmp(f.e, pr.op); ok && f.val == pr.val {
+					for _, xy := range [][2]string{{x, y}, {y, x}} {
+						if xy[0] == reqByte && (xy[1] == "bracketDelim" || xy[1] == "'{'" || xy[1] == "starDelim" || xy[1] == "'*'") {
+							guarded = "the search at " + w.Pos(at.Pos()) + " runs only when " + reqByte + " != " + xy[1]
+						}
+					}
+				}
+			}
+		}
+	}
+	ast.Inspect(af.decl.Body, func(nd ast.Node) bool {
+		switch x := nd.(type) {
+		case *ast.BinaryExpr:
+			if x.Op == token.EQL && strings.HasSuffix(exprStr(x.X), ".childKeys[i]") && strings.HasPrefix(exprStr(x.Y), "path[") {
+				visit(x, exprStr(x.Y))
+			}
+		case *ast.CallExpr:
+			if len(x.Args) == 2 && strings.HasSuffix(exprStr(x.Args[0]), ".childKeys") && strings.HasPrefix(exprStr(x.Args[1]), "path[") {
+				visit(x, exprStr(x.Args[1]))
+			}
+		}
+		return true
+	})
+	if n == 0 {
+		r.Unrecognised("C02.10: no search of the child keys for the next request byte found in lookupByPath")
+		return
+	}
+	ru.Check("child search used by "+viaMatcher, w.Pos(af.decl.Pos()), "takes '{' and '*' literally while exact lookups depend on it", guarded == "", orDefault(guarded+": a registered pattern whose wildcard has a higher-priority sibling is reported absent", "unguarded"))
 }
